@@ -27,28 +27,20 @@ architecture arch_test_comp_01 of test_comp_01 is
   end function cohdl_bool_to_std_logic;
   signal buffer_out_selected : std_logic;
   signal buffer_out_narrow : std_logic_vector(1 downto 0);
+  signal temp : std_logic;
 begin
   
   -- CONCURRENT BLOCK (buffer assignment)
   out_selected <= buffer_out_selected;
   out_narrow <= buffer_out_narrow;
   
-
-  logic: process(inp_selector, inp_a, inp_b, inp_c, inp_wide)
-    variable temp : std_logic;
-  begin
-    case inp_selector is
-      when unsigned'("0000") =>
-        temp := inp_a;
-      when unsigned'("0001") =>
-        temp := inp_b;
-      when unsigned'("0010") =>
-        temp := inp_c;
-      when others =>
-        temp := '0';
-    end case;
-    buffer_out_selected <= temp;
-    buffer_out_narrow(0) <= inp_wide(0);
-    buffer_out_narrow(1) <= inp_wide(2);
-  end process;
+  -- CONCURRENT BLOCK (logic)
+  with inp_selector select temp <=
+    inp_a when unsigned'("0000"),
+    inp_b when unsigned'("0001"),
+    inp_c when unsigned'("0010"),
+    '0' when others;
+  buffer_out_selected <= temp;
+  buffer_out_narrow(0) <= inp_wide(0);
+  buffer_out_narrow(1) <= inp_wide(2);
 end architecture arch_test_comp_01;
